@@ -90,16 +90,18 @@ def _run(c, prop, parts, quick, thorough):
 
 
 def c12(c):
-    c.assumptions += ["the round-trip theorems cover one uncompressed or (under the law 'reading the decompressor to its end gives the message') compressed message "
-                      "written by write_message and fed, in any segmentation, to an idle receiver with MessageLengthLimit = 0 and ReadLimit = 0; several messages, "
-                      "interleaved control frames and limits > 0 are decided by the differential run and the round-trip oracle on every run"]
+    c.assumptions += ["the round-trip theorems cover any list of uncompressed or (under the law 'reading the decompressor to its end gives the message') compressed "
+                      "messages written by write_message, with ping/pong frames inserted anywhere, fed in any segmentation to an idle receiver whose "
+                      "MessageLengthLimit the messages respect and whose ReadLimit is off; theorem hypotheses: fewer than 2^62 payload bytes in total"]
     _run(c, "C12", "12", 1100, 60000)
 
 
 def c13(c):
     c.assumptions += ["rfc_close_code_ok is the list fixed in DESIGN.md (1000-1003, 1007-1011, 1015, 3000-4999); masking direction and minimal "
                       "length encoding are not part of the property's list and are not checked; RSV1 on control/continuation frames with "
-                      "permessage-deflate negotiated is counted, not judged (RFC 6455 leaves it to the extension)"]
+                      "permessage-deflate negotiated is counted, not judged (RFC 6455 leaves it to the extension)",
+                      "c13_sequences: frames well formed as bytes, fewer than 2^62 payload bytes, receiver idle and open; deliveries are counted up to the "
+                      "point where the endpoint itself closes the connection"]
     _run(c, "C13", "13", 25000, 600000)
 
 
@@ -114,38 +116,52 @@ HARNESSES = [("wscodec", True)]
 
 MANIFEST = {
     "C12": dict(
-        technique="Coq model of the WebSocket codec (frame encode/decode, masking, fragmentation, Parse loop) with round-trip theorems + "
-                  "differential run of the extracted model against real Conn pairs + implementation-side round-trip oracle",
+        technique="Coq model of the WebSocket codec (frame encode/decode, masking, fragmentation, Parse loop) with round-trip theorems for single messages and "
+                  "for arbitrary lists of messages with interleaved control frames + differential run of the extracted model against real Conn pairs + "
+                  "implementation-side round-trip oracle",
         text="coq/ws/C12.v: c12_frame_roundtrip (decoding an encoded frame gives the frame and the rest: all lengths < 2^63, masked with any key or not, any "
-             "FIN/RSV1/opcode), c12_message_roundtrip (Parse on an idle connection given what WriteMessage wrote delivers exactly that message, once, with its type: "
-             "any length incl. 0, any frame limit > 0, both roles, any mask keys), c12_message_roundtrip_compressed (the same with permessage-deflate under the single "
-             "law 'reading the decompressor to its end gives back the message'; deflate output and reader answers are oracle inputs), c12_segmentation (feeding any list of "
-             "reads = feeding their concatenation: same events, oracle consumption, error, final state; receiver without limits) and c12_segmentation_success (success "
-             "direction for every message limit), c12_message_roundtrip_segmented / _compressed_segmented (the round trip for EVERY cut of the wire into reads), c12_fuel "
-             "(the model's loop bound is never hit). Every run: real websocket.Conn "
+             "FIN/RSV1/opcode); c12_message_roundtrip(_compressed)(_segmented) (one message, any length incl. 0, any frame limit > 0, both roles, any mask keys, "
+             "every cut of the wire into reads; with permessage-deflate under the single law 'reading the decompressor to its end gives back the message'); "
+             "c12_messages_roundtrip and c12_messages_roundtrip_compressed: ANY LIST of messages written by WriteMessage, with well-formed ping/pong frames inserted "
+             "anywhere into the sender's frames (also between the fragments of a message), against a receiver whose MessageLengthLimit (zero or not) the messages "
+             "respect, in one read or in any cut into reads: no error, connection stays open, messages handed to OnMessage = the list sent (type, payload, order), "
+             "every inserted ping handed to the ping handler and answered at once by one pong with the same payload; c12_segmentation / c12_segmentation_limit "
+             "(feeding any list of reads = feeding their concatenation: same events, oracle consumption, error, final state; without and with a message limit) "
+             "and c12_segmentation_success; c12_fuel (the model's loop bound is never hit). Every run: real websocket.Conn "
              "sender and receiver over an in-memory connection (both roles, compression on/off and all levels, frame limits 1..1 MiB, lengths 0/1/125-127/65535-65537/"
              "around the frame limit/MiBs, random, compressible and UTF-8 content, pings between messages and control frames spliced between fragments, all compositions of "
              "short wires, byte-wise, single cuts, random cuts); the sender's wire bytes and the receiver's events and state are compared with the model; oracle: "
              "delivered == sent (type, payload, once, in order), pings answered, and the wire decodes with an independent decoder and compress/flate.",
-        note="Partial: sequences of several messages with interleaved control frames and the round trip under a receiver-side length limit > 0 are decided by the differential "
-             "run and the oracle, not by one theorem; DEFLATE and the unrolled XOR loop are outside the proof. Found on the pinned tree and fixed in /repo (D29 control frames fragmented "
-             "when MaxWebsocketFramePayloadSize < payload, D30 control frames counted against MessageLengthLimit); both oracle signatures stay armed.",
+        note="The theorems are about the model; DEFLATE (law assumed: reading the decompressor's answers to the end gives the message), the unrolled XOR loop, ReadLimit > 0 "
+             "(segmentation-dependent by design) and connections mixing compressed and uncompressed messages are outside the proof and decided by the differential run and "
+             "the oracle. Found on the pinned tree and fixed in /repo (D29 control frames fragmented when MaxWebsocketFramePayloadSize < payload, D30 control frames counted "
+             "against MessageLengthLimit); both oracle signatures stay armed.",
         design="4/C12, Appendix D, L"),
     "C13": dict(
-        technique="tables generated from the real validFrame / Conn.Parse / validCloseCode proved equal to an independently written RFC predicate (vm_compute sweeps), the model "
-                  "proved equal to the same tables + theorems about the default handlers + differential run + conformance oracle with an independent frame generator and RFC reference",
-        text="coq/ws/C13.v: c13_frame_table (the error class of the REAL Conn.Parse for one frame, dumped for FIN x RSV1-3 x 16 opcodes x expectingFragments x enableCompression = "
-             "1024 rows, is 'accepted' exactly where rfc_frame_ok holds), c13_validframe_table (the helper alone differs only for FIN frames with opcodes 11-15, which Parse's dispatch "
-             "rejects), c13_close_codes (the real validCloseCode equals the RFC predicate on all 65536 codes), c13_model_parse_is_code / c13_model_validframe_is_code / "
+        technique="RFC 6455 for whole frame sequences written as a state-free-of-the-parser definition (rfc_run / rfc_sequence_ok) and proved equal to the receiver model by "
+                  "induction over arbitrary frame lists + tables generated from the real validFrame / Conn.Parse / validCloseCode proved equal to an independent RFC predicate "
+                  "(vm_compute sweeps), the model proved equal to the same tables + differential run + conformance oracle with an independent frame generator and RFC reference",
+        text="coq/ws/C13.v: c13_sequences: for EVERY list of raw frames (every header bit FIN/RSV1-3/opcode 0-15/mask, every length encoding incl. non-minimal, headers with a "
+             "64-bit length whose top bit is set) fed to an idle connection, Parse accepts (no error, connection open) iff rfc_sequence_ok holds - a definition that does not mention "
+             "the parser's state and rejects reserved bits/opcodes, fragmented or > 125-byte control frames, a continuation without a start, a new data frame inside a fragmented "
+             "message, invalid UTF-8 in a completed text message or close reason, an illegal close code or one-byte close body, a top-bit length (and, C15, a message over the limit); "
+             "the messages handed to OnMessage and the pings handed to the ping handler before the endpoint closed the connection are exactly those of the RFC run, every such ping is "
+             "answered at once by one pong with the same payload, a valid close reaches the close handler with its code and reason; c13_sequences_rejected: a rejected sequence "
+             "splits into an accepted prefix, the first offending frame and a rest, and deliveries = exactly the messages completed in the accepted prefix (nothing of the offending "
+             "frame's message); c13_sequences_segmented: the same for every cut of the wire into reads. Further: c13_frame_table (the error class of the REAL Conn.Parse for one frame, "
+             "dumped for FIN x RSV1-3 x 16 opcodes x expectingFragments x enableCompression = 1024 rows, is 'accepted' exactly where rfc_frame_ok holds), c13_validframe_table, "
+             "c13_close_codes (the real validCloseCode equals the RFC predicate on all 65536 codes), c13_model_parse_is_code / c13_model_validframe_is_code / "
              "c13_model_close_code_is_code (the model run inside Coq gives the same error class / result on every row and code), c13_ping_pong, c13_close_reply, "
-             "c13_close_empty_reply, c13_bad_text_refused, c13_bad_close_code_refused, c13_bad_close_reason_refused (1002 close frame, connection closed, no handler called), "
-             "c13_no_delivery (the frame on which Parse fails delivers nothing and ends the call). Every run: hand-written frame generator over FIN x RSV1-3 x 16 opcodes x mask x "
-             "length encodings x inside/outside a fragmented message x compression, UTF-8 vectors split at every byte across two and three fragments, close-code classes (all 65536 in "
-             "the thorough tier), sequencing cases, permessage-deflate cases, random valid and mutated sequences, in whole/per-frame/byte-wise/single-cut/random segmentations; verdict, "
-             "deliveries and replies must equal an RFC 6455 reference written in the harness (not the model), and the model must agree with the implementation.",
-        note="Partial: a full 'accepts iff rfc_sequence_ok' over frame sequences is not a theorem (decided by the conformance oracle on every run). The tables are regenerated from the code "
-             "through the overlay before every Coq build. rfc_close_code_ok is the list of DESIGN.md (1015 accepted, 1012-1014 not). Counted, not judged: RSV1 on control/continuation frames "
-             "with permessage-deflate; data delivered after the endpoint itself ended the connection within the same read (flag -strict-after-fail).",
+             "c13_close_empty_reply, c13_bad_text_refused, c13_bad_close_code_refused, c13_bad_close_reason_refused, c13_no_delivery. Every run: hand-written frame generator over "
+             "FIN x RSV1-3 x 16 opcodes x mask x length encodings x inside/outside a fragmented message x compression, UTF-8 vectors split at every byte across two and three "
+             "fragments, close-code classes (all 65536 in the thorough tier), sequencing cases, permessage-deflate cases, random valid and mutated sequences, in "
+             "whole/per-frame/byte-wise/single-cut/random segmentations; verdict, deliveries and replies must equal an RFC 6455 reference written in the harness (not the model), "
+             "and the model must agree with the implementation.",
+        note="c13_sequences is about the model; the model is tied to the code by the generated tables (re-dumped from the code through the overlay before every Coq build) and the "
+             "differential run. Deliveries are counted up to the point where the endpoint itself closes the connection: what Parse still does with later frames of the SAME read "
+             "after it failed the connection from a handler is an observation kept behind the harness flag -strict-after-fail. With permessage-deflate the decompressor's answers "
+             "are an oracle shared by rfc_run and the model. rfc_close_code_ok is the list of DESIGN.md (1015 accepted, 1012-1014 not); RSV1 on control/continuation frames with "
+             "permessage-deflate is accepted by rfc_frame_ok (RFC 6455's rule), as by the code.",
         design="4/C13, Appendix D, R"),
     "C15": dict(
         technique="Coq proof (invariant over the Parse loop, all frame sequences, segmentations and decompressor answers) + differential run + limit oracle",
